@@ -164,3 +164,106 @@ def sign_definite(p, positive):
         elif sg != s:
             return None
     return sg
+
+
+# ------------------------------------------------------------------ affine maps (euclid Transform2D)
+class Aff:
+    """row-vector affine map as in euclid: x' = x*m11 + y*m21 + m31, y' = x*m12 + y*m22 + m32; entries are Polys"""
+
+    def __init__(self, m11, m12, m21, m22, m31, m32, inverse_of=None):
+        self.m = (m11, m12, m21, m22, m31, m32)
+        self.inverse_of = inverse_of      # when set, this object stands for the inverse of that Aff (entries unused)
+
+    @staticmethod
+    def identity():
+        one, zero = Poly.const(1), Poly()
+        return Aff(one, zero, zero, one, zero, zero)
+
+    def then(self, o):
+        a11, a12, a21, a22, a31, a32 = self.m
+        b11, b12, b21, b22, b31, b32 = o.m
+        return Aff(a11 * b11 + a12 * b21, a11 * b12 + a12 * b22,
+                   a21 * b11 + a22 * b21, a21 * b12 + a22 * b22,
+                   a31 * b11 + a32 * b21 + b31, a31 * b12 + a32 * b22 + b32)
+
+    def cancelled(self):
+        return Aff(*[cancel_inv(p) for p in self.m])
+
+    def __eq__(self, o):
+        return isinstance(o, Aff) and self.inverse_of is None and o.inverse_of is None and all(x == y for x, y in zip(self.m, o.m))
+
+
+def cancel_inv(p):
+    """x * inv(x) = 1 for a leaf x (division by x is only defined for x != 0 anyway)"""
+    out = Poly()
+    for mono, c in p.d.items():
+        m = list(mono)
+        changed = True
+        while changed:
+            changed = False
+            for leaf in m:
+                if isinstance(leaf, tuple) and leaf and leaf[0] == 'inv':
+                    t = nosite(leaf[1])
+                    if t in m:
+                        m.remove(leaf)
+                        m.remove(t)
+                        changed = True
+                        break
+        out = out + Poly({tuple(sorted(m, key=repr)): c})
+    return out
+
+
+def eval_affine(va, t, d=0):
+    """Aff for a Transform2D-valued term built from translation/scale/identity/new/then*/pre_*/inverse, else None"""
+    t = nosite(strip_all(t))
+    if t[0] != 'call' or not isinstance(t[1], str):
+        return None
+    name, a = t[1], t[2]
+    last = name.split('::')[-1]
+    if 'Transform2D' not in name:
+        return None
+    zero, one = Poly(), Poly.const(1)
+    def vec_arg(x):
+        return va.vec(x, d)
+    if last == 'identity' and not a:
+        return Aff.identity()
+    if last == 'translation' and len(a) == 2:
+        return Aff(one, zero, zero, one, va.sp(a[0], d), va.sp(a[1], d))
+    if last == 'scale' and len(a) == 2:
+        return Aff(va.sp(a[0], d), zero, zero, va.sp(a[1], d), zero, zero)
+    if last == 'new' and len(a) == 6:
+        return Aff(*[va.sp(x, d) for x in a])
+    if last == 'then' and len(a) == 2:
+        x, y = eval_affine(va, a[0], d), eval_affine(va, a[1], d)
+        return x.then(y) if x is not None and y is not None and x.inverse_of is None and y.inverse_of is None else None
+    if last in ('then_scale', 'pre_scale') and len(a) == 3:
+        x = eval_affine(va, a[0], d)
+        s = Aff(va.sp(a[1], d), zero, zero, va.sp(a[2], d), zero, zero)
+        if x is None or x.inverse_of is not None:
+            return None
+        return x.then(s) if last == 'then_scale' else s.then(x)
+    if last in ('then_translate', 'pre_translate') and len(a) == 2:
+        x = eval_affine(va, a[0], d)
+        v = vec_arg(a[1])
+        tr = Aff(one, zero, zero, one, v[0], v[1])
+        if x is None or x.inverse_of is not None:
+            return None
+        return x.then(tr) if last == 'then_translate' else tr.then(x)
+    if last == 'inverse' and len(a) == 1:
+        x = eval_affine(va, a[0], d)
+        return Aff(zero, zero, zero, zero, zero, zero, inverse_of=x) if x is not None and x.inverse_of is None else None
+    return None
+
+
+def is_inverse_of(va, t, forward):
+    """the Transform2D-valued term t denotes the inverse of the Aff `forward` (either written as inverse(forward) —
+    possibly unwrapped — or as a map M with forward.then(M) == identity after cancelling x * (1/x))"""
+    t = strip_all(t)
+    while t[0] == 'call' and isinstance(t[1], str) and t[1].split('::')[-1] in ('unwrap', 'expect', 'unwrap_or_default') and t[2]:
+        t = strip_all(t[2][0])
+    m = eval_affine(va, t)
+    if m is None:
+        return False
+    if m.inverse_of is not None:
+        return m.inverse_of == forward
+    return forward.then(m).cancelled() == Aff.identity()
